@@ -310,8 +310,44 @@ def fam_bus_args():
     return hs
 
 
+def fam_big(thorough):
+    """LARGE bind blocks, sizes straddling the 65504-byte datagram limit (one '/n_set id amp i' element = 32 bytes:
+    2046 fit, 2047 do not): just below, just above, 2x, 3x; many small commands, a few big list payloads below and above
+    the 8192-byte clump size, mixed; with / without a sync in the middle, with an exception after the sync / at the end"""
+    hs = []
+
+    def big(N, k=0, r=0, payload='small', ln=1500):
+        hs.append(PRE_NODE + [op('bigbind', h=4, n=[N, k, r], payload=payload, len=ln), op('run', h=4, n=[1])])
+    for N in (2046, 2047, 2100, 4200) + ((6600, 9000) if thorough else (6600,)):
+        big(N)
+    big(2047, k=1000)               # both halves fit
+    big(4200, k=2100)               # both halves oversize
+    big(4200, k=10)
+    big(4200, k=2100, r=4200)       # raise after the sync: the flushed half stays, the rest is dropped
+    big(2100, r=2101)               # raise at the very end: nothing
+    big(2100, k=2050, r=100)        # raise before the sync: nothing
+    for N in (8, 9, 20):
+        big(N, payload='list', ln=1500)         # 7.5 kB each: below the clump size
+    for N in (5, 6, 12):
+        big(N, payload='list', ln=2500)         # 11.5 kB each: every command alone exceeds the clump size
+    big(9, k=4, payload='list', ln=1500)
+    big(12, k=6, r=12, payload='list', ln=2500)
+    big(600, payload='mixed')
+    big(1500, payload='mixed')
+    big(1500, k=700, payload='mixed')
+    if thorough:
+        for N in range(2040, 2056):
+            big(N)
+        for N in (3000, 5000):
+            big(N, k=N // 3)
+            big(N, payload='mixed', ln=1000)
+        big(40, payload='list', ln=1500)
+        big(30, k=11, payload='list', ln=2500)
+    return hs
+
+
 def has_sync(h):
-    return any(o['op'] == 'sync' or any(i['op'] == 'sync' for i in o.get('body', [])) for o in h)
+    return any(o['op'] == 'sync' or (o['op'] == 'bigbind' and o['n'][1] > 0) or any(i['op'] == 'sync' for i in o.get('body', [])) for o in h)
 
 
 def random_history(rnd, n):
@@ -428,7 +464,7 @@ def nontrivial(h):
         flat += o['body'] if o['op'] == 'bind' else [o]
     if any(o['op'] == 'bind' and o['body'] for o in h):
         return True
-    return any(o.get('h', 0) > 4 or o['op'] in ('b_free', 'bus_free', 'free') for o in flat)
+    return any(o.get('h', 0) > 4 or o['op'] in ('b_free', 'bus_free', 'free', 'bigbind') for o in flat)
 
 
 # ----------------------------------------------------------------------------- running / judging
@@ -506,6 +542,9 @@ def run(ctx):
     r = ctx.model_check('ServerCmdModel', 'ServerCmdModel_bind.cfg', coverage=False, workers=8, timeout=1500,
                         label='bind blocks with syncs and raise points, 7 calls deep, few kinds of call')
     ctx.expect_ok(r, 'ServerCmdModel bind/sync')
+    r = ctx.model_check('Clump', 'Clump.cfg', coverage=False, workers=4, timeout=600,
+                        label='oversize blocks: NetAddr._clump_bundle transcribed, every size sequence of <= 6 commands')
+    ctx.expect_ok(r, 'Clump')
     if thorough:
         r = ctx.model_check('ServerCmdModel', 'ServerCmdModel_deep.cfg', coverage=False, workers=8, timeout=1500,
                             label='4 calls, narrow choice sets')
@@ -516,7 +555,7 @@ def run(ctx):
             ('buffers', fam_buffers(5 if thorough else 4)), ('buffer-cmds', fam_buffer_commands()),
             ('buses', fam_buses(5 if thorough else 4)), ('bus-cmds', fam_bus_commands()),
             ('bind', fam_bind(3 if thorough else 2)), ('bind-sync', fam_sync(4 if thorough else 3)),
-            ('bus-args', fam_bus_args())]
+            ('bus-args', fam_bus_args()), ('big-blocks', fam_big(thorough))]
     cases = []
     famcount = {}
     for name, hs in fams:
@@ -551,7 +590,8 @@ def run(ctx):
                        'consecutive, free, double free, free_all, use) and of %d bus calls; every buffer/bus command incl. after '
                        'free; bind bodies of <= %d calls x every raise point; bind bodies with 1-2 sync() x every raise point (RT with a '
                        'stub /synced reply, and NRT); %d seeded random programs (8-40 calls, bind blocks with syncs and '
-                       'random raise points); client ids 0 and 1, node-id wrap; NRT all, RT every %d-th. non-trivial = '
+                       'random raise points); large bind blocks straddling the 65504-byte datagram limit (2046..6600 small commands, 5-20 list '
+                       'payloads of 7.5/11.5 kB, mixed; sync in the middle; raise after the sync / at the end), NRT and RT; client ids 0 and 1, node-id wrap; NRT all, RT every %d-th. non-trivial = '
                        'addresses an object created in the history, frees something, or has a non-empty bind block'
                        % (5 if thorough else 4, 5 if thorough else 4, 3 if thorough else 2, nrand, step))
     ctx.cov['exhaustive'] = True
